@@ -74,6 +74,7 @@ async def run_schedule(cfg, events, settle=8):
     import nauyaca.server.protocol as sp
     loop = asyncio.get_running_loop()
     acts = []
+    seen = []
     gates = {}
     counter = {"n": 0}
     def new_gate():
@@ -92,6 +93,7 @@ async def run_schedule(cfg, events, settle=8):
             return await finish(i)
     class UP:
         async def handle_upload(self, req):
+            seen.append([req.hostname, req.port, req.path, req.parsed_url.query])
             i = new_gate(); acts.append(["up", i, req.raw_url, bytes(req.content)])
             return await finish(i)
     async def async_handler():
@@ -99,6 +101,7 @@ async def run_schedule(cfg, events, settle=8):
         return await finish(i)
     def handler(req):
         acts.append(["h", req.raw_url])
+        seen.append([req.hostname, req.port, req.path, req.query])
         h = cfg["hres"]
         if h[0] == "value": return mk_resp(h[1])
         if h[0] == "raise": raise Exception(h[1])
@@ -162,7 +165,7 @@ async def run_schedule(cfg, events, settle=8):
                 acts.append(["escape-cb", type(ex).__name__])
             del cb_errors[:]
             obs.append([acts[mark:], armed()])
-        return obs, delay, list(urlimpl._calls)
+        return obs, delay, list(urlimpl._calls), (seen[0] if seen else [])
     finally:
         h = p.timeout_handle
         if h is not None: h.cancel()
@@ -179,9 +182,9 @@ def run_cases(cases):
         out = []
         for cfg, evs in cases:
             urllib.parse.clear_cache(); del urlimpl._calls[:]
-            obs, delay, calls = await run_schedule(cfg, evs)
+            obs, delay, calls, seen = await run_schedule(cfg, evs)
             table = [[h, [] if m is None else [m]] for h, m in calls]
-            out.append((obs, delay, table))
+            out.append((obs, delay, table, seen))
         return out
     return asyncio.run(go())
 
